@@ -146,6 +146,60 @@ def rel_cnl_degenerate(ctx, res, rng):
     model_pair(ctx, res, 'degenerate cnl = nested', cnl, case, w)
 
 
+def rel_cnl_single_nest(ctx, res, rng):
+    """every alternative in one nest only, with an allocation alpha_i that is not 1: the cross-nested
+    logit is the nested logit on the utilities V_i + log(alpha_i) (resp. V_i + log(alpha_i)/mu):
+    the nest `(sum_j (alpha_j y_j)^mu_m)^(1/mu_m)` is the nested-logit nest at y' = alpha y"""
+    scaled = rng.random() < 0.4
+    fam = 'nestedmu' if scaled else 'nested'
+    case = gen_case(rng, fam)
+    mu = case['mu']['v'] if scaled else 1.0
+    alpha = {a: dyadic(rng, 0.125, 2) for a in case['alts']}
+    cnl = copy.deepcopy(case)
+    cnl['family'] = 'cnlmu' if scaled else 'cnl'
+    cnl['nests']['list'] = [{'mu': m['mu'], 'alphas': [[a, alpha[a], rng.choice(['num', 'beta'])] for a in m['alts']]}
+                            for m in case['nests']['list']]
+    in_nest = {a for m in case['nests']['list'] for a in m['alts']}
+    nested = copy.deepcopy(case)
+    nested['util'] = [u if a not in in_nest else {'k': 'sum', 'of': u, 'c': math.log(alpha[a]) / mu}
+                      for a, u in zip(case['alts'], case['util'])]
+    res.count({'rel': 'cnl_single_nest', 'case': cnl}, nontrivial=nontrivial(case))
+    res.tally('cnl(one nest each, alpha_i) = nested(V + log alpha)' + (' (with mu)' if scaled else ''))
+    w = 'models.cnl (each alternative in one nest, alpha != 1) vs models.nested on V + log(alpha)'
+    compare_pair(res, 'cross-nested logit with every alternative in a single nest vs nested logit on V + log(alpha)/mu', cnl, nested, w)
+    model_pair(ctx, res, 'single-nest cnl = nested(V + log alpha)', cnl, nested, w)
+
+
+def rel_euler(ctx, res, rng):
+    """the three published pieces of the nested logit agree: P_i = y_i exp(ln G_i) / G(y)
+    (Euler: G is homogeneous of degree one); rows where an alone alternative is unavailable are
+    skipped (the published G keeps its y_i)"""
+    case = gen_case(rng, 'nested')
+    res.count({'rel': 'euler', 'case': case}, nontrivial=nontrivial(case))
+    res.tally('nested = y_i G_i / G')
+    w = 'models.nested vs get_mev_for_nested and get_mev_generating_for_nested'
+    rp = real_values(case)
+    g = real_generating(case)
+    lg = real_log_gi(case)
+    if 'err' in rp or 'err' in g or 'err' in lg:
+        res.violate(f'a nested-logit function raises on a valid specification: {rp.get("msg") or g.get("msg") or lg.get("msg")}', case,
+                    rp.get('msg') or g.get('msg') or lg.get('msg'), 'values', where=w)
+        return
+    in_nest = {a for m in case['nests']['list'] for a in m['alts']}
+    for r in range(case['rows']):
+        V, av = row_view(case, r)
+        if av is not None and any(x == 0 and a not in in_nest for a, x in zip(case['alts'], av)):
+            continue
+        for i, a in enumerate(case['alts']):
+            if av is not None and av[i] == 0:
+                continue
+            exp = math.exp(V[i] + lg['ok'][a][r]) / g['ok'][r]
+            if not is_close(rp['ok'][a][r], exp, TOL):
+                res.violate(f'row {r}: nested probability of alternative {a} differs from y_i exp(ln G_i) / G', {**case, 'alternative': a},
+                            rp['ok'][a][r], exp, where=w)
+                return
+
+
 def rel_scale_one(ctx, res, rng):
     fam = rng.choice(['nestedmu', 'cnlmu'])
     case = gen_case(rng, fam)
@@ -298,7 +352,7 @@ def rel_generating(ctx, res, rng):
     check_generating(ctx, res, case)
 
 
-RELATIONS = [rel_mu_one, rel_cnl_degenerate, rel_scale_one, rel_tuple_syntax, rel_generating]
+RELATIONS = [rel_mu_one, rel_cnl_degenerate, rel_cnl_single_nest, rel_scale_one, rel_tuple_syntax, rel_generating, rel_euler]
 
 # F07 (fixed in the repository): an alone alternative in the generating function
 CORPUS_GEN = [
@@ -320,7 +374,7 @@ def check(ctx) -> Result:
         for c in CORPUS_GEN:
             check_generating(ctx, res, c)
             res.tally('corpus')
-        n = ctx.n(45, 1500)
+        n = ctx.n(32, 600)
         for _ in range(n):
             for rel in RELATIONS:
                 rel(ctx, res, rng)
@@ -342,7 +396,7 @@ def search(ctx, res, broken):
         batch = NoBatch()
 
     with core.scratch():
-        for _ in range(300):
+        for _ in range(60):
             for rel in RELATIONS:
                 rel(C2, r2, rng)
             if r2.violations:
